@@ -105,7 +105,7 @@ def run(tier, seed):
         outs = [json.loads(l) for l in open(hout)]
         for c, e, o in zip(cases, exp, outs):
             judge_msg(v, c, e, o)
-        tested = selftest18(cases, exp, outs)
+        tested = selftest18(cases, exp, outs) if not v.violations else []
         # ---- PER tables, GCC responses, ASN.1 trees
         gcc_f, trees_f, per_f, der_f = [os.path.join(wd, x) for x in ("gcc.ndjson", "trees.ndjson", "per.table.ndjson", "der.out.ndjson")]
         rc, err = core.run_harness(vh, "model", ["--dump-gcc", "x", "--out", gcc_f])
